@@ -16,6 +16,13 @@ def exotic_roster(consts):
     return {k: exo[i % len(exo)] for i, k in enumerate(sorted(keys))}
 
 
+def cyclic_roster(consts):
+    """values that contain themselves"""
+    keys = sorted(k for k in consts.id_property_map.values() if k not in ('id', 'name', 'shipId', 'teamId', 'avatarId'))
+    l = [1, 2, 3]; l.append(l); d = {'n': 1}; d['self'] = d
+    return {keys[0]: l, keys[-1]: d}
+
+
 def byteskey_roster(consts):
     """a Python-2 dict with str keys inside a player record: pickle.loads(..., encoding='bytes') turns the keys into bytes"""
     keys = sorted(k for k in consts.id_property_map.values() if k not in ('id', 'name', 'shipId', 'teamId', 'avatarId'))
@@ -99,6 +106,39 @@ def run(ctx):
             if not (ok and same):
                 ctx.violation(dict(kind='cli-output', file=os.path.basename(f), exit_code=pr.returncode, stdout_head=pr.stdout[:300], stdout_is_one_json_document=doc is not None,
                                    equals_get_info=same, stderr_tail=pr.stderr[-300:], how='python replay_parser.py --replay <file>; json.loads(stdout)'))
+        # the CLI's options: every log level, strict mode, a raw dump to a writable file, to a missing directory and to a directory. Whatever
+        # happens, standard output holds either nothing (the tool failed: diagnostics on stderr, non-zero exit) or exactly one JSON document
+        optfiles = [f for f in files if f.endswith('.wowsreplay')][:1] + [f for f in files if not f.endswith('.wowsreplay')][:2]
+        os.makedirs(os.path.join(tmp, 'adir'), exist_ok=True)
+        optsets = [['--log_level', 'DEBUG'], ['--log_level', 'INFO', '--strict_mode'], ['--raw_data_output', os.path.join(tmp, 'ok.bin')],
+                   ['--raw_data_output', os.path.join(tmp, 'missing-dir', 'x.bin')], ['--raw_data_output', os.path.join(tmp, 'adir')],
+                   ['--strict_mode', '--raw_data_output', os.path.join(tmp, 'missing-dir', 'y.bin'), '--log_level', 'WARNING']]
+        for f in optfiles:
+            for opts in optsets:
+                ctx.case(('cli-options', os.path.basename(f), ' '.join(o for o in opts if o.startswith('--')))); ctx.count('cli:options')
+                prb = subprocess.run([common.PY, os.path.join(common.REPO, 'replay_parser.py'), '--replay', f] + opts, capture_output=True, env=env, timeout=600, cwd=tmp)
+                out = prb.stdout
+                try: one_doc = out.strip() == b'' or (json.loads(out.decode('utf-8')) is not None or True)
+                except ValueError: one_doc = False
+                if not one_doc or (out.strip() == b'' and prb.returncode == 0):
+                    ctx.violation(dict(kind='cli-output', file=os.path.basename(f), options=[o.replace(tmp, '<tmp>') for o in opts], exit_code=prb.returncode,
+                                       stdout_head=out[:300].decode('utf-8', 'backslashreplace'), stderr_tail=prb.stderr[-300:].decode('utf-8', 'backslashreplace'),
+                                       how='python replay_parser.py --replay <file> <options>: stdout must be empty (failure, non-zero exit) or exactly one JSON document'))
+                    break
+        # pickled records whose values contain THEMSELVES (legal for pickle): the summary must stay free of cycles
+        for v in picks[:1] + picks[-2:]:
+            p = os.path.join(tmp, 'cyc-%s.wowsreplay' % v)
+            b, vs = battle.build_wows(v, random.Random(6), join=True, roster_extra=cyclic_roster)
+            battle.write_replay(p, 'wowsreplay', {'clientVersionFromXml': vs}, b.stream())
+            ctx.case(('cyclic-values', v)); ctx.count('cli:cyclic')
+            info = ReplayParser(p, strict=False).get_info()
+            try: json.dumps(info, cls=DefaultEncoder)
+            except Exception as ex:
+                pi = os.path.join(common.REPO, 'replay_unpack', 'clients', 'wows', 'versions', v, 'players_info.py')
+                uses_unicodize = os.path.exists(pi) and 'unicodize' in open(pi, encoding='utf-8', errors='replace').read()
+                ctx.deviation('cyclic-value', {'class': 'cyclic-value', 'channel': 'pickled-player-record', 'unicodize': uses_unicodize},
+                              dict(kind='not-serialisable', version='wows/' + v, exception='%s: %s' % (type(ex).__name__, str(ex)[:200]), players_info_uses_unicodize=uses_unicodize,
+                                   how='a synthetic battle whose pickled player records hold a list and a dict that contain themselves; json.dumps(get_info(), cls=DefaultEncoder)'))
         # probe: a dict with bytes keys inside a pickled player record (what a Python-2 client's str-keyed dict becomes)
         for v in picks[:2] + picks[-1:]:
             p = os.path.join(tmp, 'bk-%s.wowsreplay' % v)
